@@ -1,1 +1,510 @@
-// stub
+// C12 — Relayer batching preserves every block exactly and respects the payload bound.
+// Explicit-state search over the real `NextSubmission` behind the real
+// `BlobSubmitter::{add_sequencer_block_to_next_submission, has_capacity}`: every sequence of
+// block deliveries (5 size classes around the 1 MB compressed limit) and takes up to a depth; each
+// state is the history replayed on a fresh submitter. The blobs of every taken submission are
+// decoded the way the conductor does and compared with the blocks handed in.
+#![allow(clippy::all, clippy::pedantic, dead_code, unused_imports)]
+
+#[path = "/verif/engine/mod.rs"]
+pub(crate) mod engine;
+
+use std::{
+    collections::BTreeMap,
+    sync::Arc,
+};
+
+use astria_core::{
+    brotli::decompress_bytes,
+    generated::astria::sequencerblock::v1 as raw,
+    primitive::v1::RollupId,
+    protocol::test_utils::ConfigureSequencerBlock,
+    sequencerblock::v1::{
+        SubmittedMetadata,
+        SubmittedRollupData,
+    },
+    Protobuf as _,
+};
+use engine::{
+    explore::{
+        self,
+        Config,
+        Model,
+        Step,
+        Violation,
+    },
+    json::J,
+    report::{
+        self,
+        Finding,
+        Report,
+        Tier,
+    },
+};
+use prost::Message as _;
+use sequencer_client::SequencerBlock;
+use tokio_util::sync::CancellationToken;
+
+use super::{
+    conversion::{
+        NextSubmission,
+        Submission,
+    },
+    BlobSubmitter,
+};
+use crate::IncludeRollup;
+
+const MAX_PAYLOAD: usize = 1_000_000;
+const CHAIN_ID: &str = "verif-seq";
+
+fn ra() -> RollupId {
+    RollupId::new([0xa1; 32])
+}
+
+fn rb() -> RollupId {
+    RollupId::new([0xb2; 32])
+}
+
+/// Incompressible bytes (xorshift), so that the compressed size tracks the payload size.
+fn noise(len: usize, seed: u64) -> Vec<u8> {
+    let mut x = seed | 1;
+    let mut out = Vec::with_capacity(len);
+    while out.len() < len {
+        x ^= x << 13;
+        x ^= x >> 7;
+        x ^= x << 17;
+        out.extend_from_slice(&x.to_le_bytes());
+    }
+    out.truncate(len);
+    out
+}
+
+/// (name, bytes for rollup a, bytes for rollup b)
+const CLASSES: &[(&str, usize, usize)] = &[
+    ("tiny", 10, 0),
+    ("0.3MB", 200_000, 100_000),
+    ("0.5MB", 500_000, 0),
+    ("0.7MB", 350_000, 350_000),
+    ("0.99MB", 985_000, 0),
+    ("no-rollup-data", 0, 0),
+];
+
+fn make_block(height: u32, class: usize) -> SequencerBlock {
+    let (_, a, b) = CLASSES[class];
+    let mut sequence_data = Vec::new();
+    if a > 0 {
+        sequence_data.push((ra(), noise(a, u64::from(height) * 31 + 7)));
+    }
+    if b > 0 {
+        sequence_data.push((rb(), noise(b, u64::from(height) * 131 + 9)));
+    }
+    ConfigureSequencerBlock {
+        block_hash: Some(astria_core::sequencerblock::v1::block::Hash::new([height as u8; 32])),
+        chain_id: Some(CHAIN_ID.to_string()),
+        height,
+        sequence_data,
+        unix_timestamp: (1i64, 1u32).into(),
+        signing_key: Some(astria_core::crypto::SigningKey::from([9; 32])),
+        proposer_address: None,
+        ..Default::default()
+    }
+    .make()
+}
+
+#[derive(Clone, Copy, Debug, PartialEq, Eq, Hash)]
+enum Ev {
+    Deliver(usize),
+    Take,
+}
+
+#[derive(Clone, Debug, PartialEq, Eq, Hash)]
+struct Obs {
+    /// size classes of blocks currently batched (in order) and of the pushed-back block
+    batched: Vec<usize>,
+    pending: Option<usize>,
+    delivered: u32,
+}
+
+struct St {
+    hist: Vec<Ev>,
+    obs: Obs,
+}
+
+struct BatchModel {
+    filter: &'static str,
+    n_classes: usize,
+    blocks: Vec<Vec<SequencerBlock>>, // [height-1][class]
+    metrics: &'static crate::Metrics,
+}
+
+fn new_submitter(filter: &IncludeRollup, metrics: &'static crate::Metrics) -> BlobSubmitter {
+    let state = Arc::new(super::super::State::new());
+    let key = tendermint::private_key::Secp256k1::from_slice(&[7u8; 32]).unwrap();
+    let client_builder = super::super::celestia_client::CelestiaClientBuilder::new(
+        "celestia".to_string(),
+        0.002,
+        "http://127.0.0.1:1".parse().unwrap(),
+        super::super::celestia_client::CelestiaKeys::from(key),
+        state.clone(),
+    )
+    .unwrap();
+    let (_tx, rx) = tokio::sync::mpsc::channel(1);
+    BlobSubmitter {
+        client_builder,
+        blocks: rx,
+        next_submission: NextSubmission::new(filter.clone(), metrics),
+        state,
+        submission_state_at_startup: None,
+        submitter_shutdown_token: CancellationToken::new(),
+        pending_block: None,
+        metrics,
+    }
+}
+
+fn filter_of(name: &str) -> IncludeRollup {
+    use base64::{
+        engine::general_purpose::STANDARD,
+        Engine as _,
+    };
+    match name {
+        "all" => IncludeRollup::parse("").unwrap(),
+        "only-a" => IncludeRollup::parse(&STANDARD.encode(ra().as_bytes())).unwrap(),
+        "only-absent" => IncludeRollup::parse(&STANDARD.encode([0xcc; 32])).unwrap(),
+        other => panic!("unknown filter {other}"),
+    }
+}
+
+struct Taken {
+    heights: Vec<u64>,
+    compressed_size: usize,
+    blob_bytes: usize,
+    metadata: Vec<raw::SubmittedMetadata>,
+    rollup_data: BTreeMap<RollupId, Vec<raw::SubmittedRollupData>>,
+}
+
+fn decode_submission(sub: Submission) -> Result<Taken, String> {
+    let compressed_size = sub.compressed_size();
+    let heights: Vec<u64> = {
+        let v = serde_json::to_value(sub.input_metadata()).map_err(|e| e.to_string())?;
+        v.get("sequencer_heights")
+            .and_then(|h| h.as_array())
+            .map(|a| a.iter().filter_map(|x| x.as_u64().or_else(|| x.as_str().and_then(|s| s.parse().ok()))).collect())
+            .unwrap_or_default()
+    };
+    let blobs = sub.into_blobs();
+    let blob_bytes = blobs.iter().map(|b| b.data.len()).sum();
+    let seq_ns = astria_core::celestia::namespace_v0_from_sha256_of_bytes(CHAIN_ID.as_bytes());
+    let mut metadata = Vec::new();
+    let mut rollup_data: BTreeMap<RollupId, Vec<raw::SubmittedRollupData>> = BTreeMap::new();
+    for blob in blobs {
+        let data = decompress_bytes(&blob.data).map_err(|e| format!("blob does not decompress: {e}"))?;
+        if blob.namespace == seq_ns {
+            let list = raw::SubmittedMetadataList::decode(&*data).map_err(|e| e.to_string())?;
+            metadata.extend(list.entries);
+        } else {
+            let list = raw::SubmittedRollupDataList::decode(&*data).map_err(|e| e.to_string())?;
+            for e in list.entries {
+                let checked = SubmittedRollupData::try_from_raw(e.clone()).map_err(|e| format!("{e:?}"))?;
+                let ns = astria_core::celestia::namespace_v0_from_rollup_id(checked.rollup_id());
+                if ns != blob.namespace {
+                    return Err("rollup entry published under another rollup's namespace".into());
+                }
+                rollup_data.entry(checked.rollup_id()).or_default().push(e);
+            }
+        }
+    }
+    Ok(Taken {
+        heights,
+        compressed_size,
+        blob_bytes,
+        metadata,
+        rollup_data,
+    })
+}
+
+impl BatchModel {
+    fn viol(&self, clause: &str, signature: &str, detail: String) -> Violation {
+        Violation {
+            clause: clause.into(),
+            signature: signature.into(),
+            detail: format!("filter={}: {detail}", self.filter),
+        }
+    }
+
+    /// Replays `hist`; checks every taken submission and the final bookkeeping.
+    fn run(&self, hist: &[Ev]) -> Result<Obs, Violation> {
+        let rt = tokio::runtime::Builder::new_current_thread().enable_all().build().unwrap();
+        rt.block_on(async {
+            let filter = filter_of(self.filter);
+            let mut submitter = new_submitter(&filter, self.metrics);
+            let mut delivered: Vec<(u32, usize)> = Vec::new(); // (height, class) in delivery order
+            let mut batched: Vec<(u32, usize)> = Vec::new();
+            let mut pending: Option<(u32, usize)> = None;
+            let mut emitted: Vec<u64> = Vec::new();
+            for ev in hist {
+                match ev {
+                    Ev::Deliver(class) => {
+                        // the run loop only receives a block while `has_capacity()`
+                        if !submitter.has_capacity() {
+                            return Err(self.viol("harness", "deliver without capacity", format!("{hist:?}")));
+                        }
+                        let height = delivered.len() as u32 + 1;
+                        let block = self.blocks[(height - 1) as usize][*class].clone();
+                        delivered.push((height, *class));
+                        if let Err(e) = submitter.add_sequencer_block_to_next_submission(block) {
+                            return Err(self.viol(
+                                "accepts-every-block",
+                                "a block that fits alone is refused for good",
+                                format!("block {height} ({}) made the submitter fail: {e:#}", CLASSES[*class].0),
+                            ));
+                        }
+                        if submitter.pending_block.is_some() {
+                            pending = Some((height, *class));
+                        } else {
+                            batched.push((height, *class));
+                        }
+                    }
+                    Ev::Take => {
+                        let Some(sub) = submitter.next_submission.take().await else {
+                            if !batched.is_empty() {
+                                return Err(self.viol("exactly-once", "batched blocks vanished", format!("take() returned nothing although {batched:?} were batched")));
+                            }
+                            continue;
+                        };
+                        // as in the run loop: the pushed-back block enters the fresh submission
+                        let moved = submitter.pending_block.take();
+                        let taken = decode_submission(sub).map_err(|e| self.viol("decodable", "published blobs do not decode", e))?;
+                        let want_heights: Vec<u64> = batched.iter().map(|(h, _)| u64::from(*h)).collect();
+                        if taken.heights != want_heights {
+                            return Err(self.viol(
+                                "exactly-once",
+                                "submission heights differ from the batched blocks",
+                                format!("submission reports {:?}, batched {want_heights:?}", taken.heights),
+                            ));
+                        }
+                        if taken.compressed_size > MAX_PAYLOAD {
+                            return Err(self.viol(
+                                "payload-bound",
+                                "compressed payload above the maximum",
+                                format!("{} bytes for heights {want_heights:?}", taken.compressed_size),
+                            ));
+                        }
+                        if taken.compressed_size != taken.blob_bytes {
+                            return Err(self.viol(
+                                "payload-bound",
+                                "reported compressed size differs from the blob bytes",
+                                format!("reported {} actual {}", taken.compressed_size, taken.blob_bytes),
+                            ));
+                        }
+                        // content: metadata of each block in order; rollup data per included rollup
+                        let mut want_meta = Vec::new();
+                        let mut want_rollup: BTreeMap<RollupId, Vec<raw::SubmittedRollupData>> = BTreeMap::new();
+                        for (h, c) in &batched {
+                            let (m, rs) = self.blocks[(*h - 1) as usize][*c].clone().split_for_celestia();
+                            want_meta.push(m.into_raw());
+                            for r in rs {
+                                if filter.should_include(&r.rollup_id()) {
+                                    want_rollup.entry(r.rollup_id()).or_default().push(r.into_raw());
+                                }
+                            }
+                        }
+                        if taken.metadata != want_meta {
+                            return Err(self.viol(
+                                "content-exact",
+                                "published metadata differs from the blocks' metadata",
+                                format!("{} entries published, {} blocks batched", taken.metadata.len(), want_meta.len()),
+                            ));
+                        }
+                        if taken.rollup_data != want_rollup {
+                            return Err(self.viol(
+                                "content-exact",
+                                "published rollup data differs from the blocks' (filtered) rollup data",
+                                format!("published rollups {:?}, expected {:?}", taken.rollup_data.keys().collect::<Vec<_>>(), want_rollup.keys().collect::<Vec<_>>()),
+                            ));
+                        }
+                        // the published entries equal `split_for_celestia`'s output byte for byte (proofs
+                        // included); that output is audited against the header roots under C07 / C09
+                        for m_raw in &taken.metadata {
+                            SubmittedMetadata::try_from_raw(m_raw.clone())
+                                .map_err(|e| self.viol("content-exact", "published metadata fails verification", format!("{e:?}")))?;
+                        }
+                        emitted.extend(want_heights);
+                        batched.clear();
+                        if let Some(block) = moved {
+                            let p = pending.take().expect("pending mirror");
+                            if let Err(e) = submitter.add_sequencer_block_to_next_submission(block) {
+                                return Err(self.viol("accepts-every-block", "pushed-back block refused for good", format!("{e:#}")));
+                            }
+                            if submitter.pending_block.is_some() {
+                                return Err(self.viol("accepts-every-block", "pushed-back block does not fit an empty submission", format!("block {p:?}")));
+                            }
+                            batched.push(p);
+                        }
+                    }
+                }
+            }
+            // bookkeeping: everything delivered is emitted, batched or pending — once, in order
+            let mut all: Vec<u64> = emitted.clone();
+            all.extend(batched.iter().map(|(h, _)| u64::from(*h)));
+            all.extend(pending.iter().map(|(h, _)| u64::from(*h)));
+            let want: Vec<u64> = delivered.iter().map(|(h, _)| u64::from(*h)).collect();
+            if all != want {
+                return Err(self.viol("exactly-once", "delivered heights are not accounted for once and in order", format!("accounted {all:?}, delivered {want:?}")));
+            }
+            Ok(Obs {
+                batched: batched.iter().map(|(_, c)| *c).collect(),
+                pending: pending.map(|(_, c)| c),
+                delivered: delivered.len() as u32,
+            })
+        })
+    }
+}
+
+impl Model for BatchModel {
+    type Ev = Ev;
+    type St = St;
+
+    fn init(&self) -> St {
+        St {
+            hist: vec![],
+            obs: self.run(&[]).ok().expect("empty run"),
+        }
+    }
+
+    fn enabled(&self, st: &St, _hist: &[Ev]) -> Vec<Ev> {
+        let mut v = Vec::new();
+        if st.obs.pending.is_none() && (st.obs.delivered as usize) < self.blocks.len() {
+            v.extend((0..self.n_classes).map(Ev::Deliver));
+        }
+        v.push(Ev::Take);
+        v
+    }
+
+    fn step(&self, st: &St, _hist: &[Ev], ev: &Ev) -> Step<St> {
+        let mut hist = st.hist.clone();
+        hist.push(*ev);
+        match self.run(&hist) {
+            Ok(obs) => Step::Next(St {
+                hist,
+                obs,
+            }),
+            Err(v) => Step::Violated(v),
+        }
+    }
+
+    fn canon(&self, st: &St) -> u128 {
+        // Behaviour depends on the sizes batched / pushed back, not on the heights (a relabelling
+        // of consecutive numbers), so the number of blocks delivered so far is not part of the key.
+        report::h128(&(&st.obs.batched, &st.obs.pending))
+    }
+
+    fn outcome(&self, st: &St) -> u64 {
+        report::h64(&(st.obs.batched.len(), st.obs.pending.is_some()))
+    }
+}
+
+fn ev_json(ev: &Ev) -> J {
+    match ev {
+        Ev::Deliver(c) => J::s(format!("deliver:{}", CLASSES[*c].0)),
+        Ev::Take => J::s("take"),
+    }
+}
+
+#[test]
+fn verif_c12() {
+    use telemetry::Metrics as _;
+    let mut rep = Report::new("C12", "batching");
+    let thorough = report::tier() == Tier::Thorough;
+    let (depth, n_classes) = if thorough { (7, CLASSES.len()) } else { (4, 5) };
+    let metrics: &'static crate::Metrics = Box::leak(Box::new(crate::Metrics::noop_metrics(&()).unwrap()));
+    let blocks: Vec<Vec<SequencerBlock>> =
+        (1..=depth as u32).map(|h| (0..CLASSES.len()).map(|c| make_block(h, c)).collect()).collect();
+    let mut model = BatchModel {
+        filter: "all",
+        n_classes,
+        blocks,
+        metrics,
+    };
+    if let Some(case) = report::load_replay("C12", "batching") {
+        model.filter = match case.get("filter").and_then(J::as_str) {
+            Some("only-a") => "only-a",
+            Some("only-absent") => "only-absent",
+            _ => "all",
+        };
+        model.n_classes = CLASSES.len();
+        let hist: Vec<Ev> = case
+            .get("history")
+            .and_then(J::as_arr)
+            .unwrap()
+            .iter()
+            .map(|j| match j.as_str().unwrap() {
+                "take" => Ev::Take,
+                s => Ev::Deliver(CLASSES.iter().position(|c| Some(c.0) == s.strip_prefix("deliver:")).unwrap()),
+            })
+            .collect();
+        let a = explore::replay(&model, &hist);
+        let b = explore::replay(&model, &hist);
+        assert_eq!(format!("{a:?}"), format!("{b:?}"), "uncontrolled nondeterminism");
+        if let Ok(Some(v)) = a {
+            rep.finding(Finding {
+                clause: v.clause,
+                signature: v.signature,
+                detail: v.detail,
+                case,
+            });
+        }
+        rep.finish();
+        return;
+    }
+    rep.rule(&format!(
+        "BFS over the real NextSubmission behind BlobSubmitter's pending-block logic: every sequence of <= {depth} events from \
+         {{deliver(next height, size class in {:?}), take}} for rollup filters {{all, only rollup a, only an absent rollup}}; \
+         each state is the history replayed on a fresh submitter; blocks carry incompressible payloads so compressed size tracks \
+         payload size; every taken submission is decoded like the conductor does (brotli, protobuf lists, checked types, \
+         Merkle audit) and compared with the blocks handed in",
+        CLASSES[..n_classes].iter().map(|c| c.0).collect::<Vec<_>>()
+    ));
+    let mut outcomes = 0;
+    for filter in ["all", "only-a", "only-absent"] {
+        model.filter = filter;
+        let out = explore::explore(
+            &model,
+            &Config {
+                // with a filter most payload is dropped and nearly everything fits: one level less
+                max_depth: if filter == "all" { depth } else { depth - 1 },
+                workers: report::workers(),
+                time_cap: std::time::Duration::from_secs(if thorough { 3000 } else { 300 }),
+                ..Config::default()
+            },
+        );
+        println!(
+            "NOTE C12 filter={filter} depth={depth}: states={} transitions={} outcomes={} per_depth={:?} violations={}",
+            out.states,
+            out.transitions,
+            out.distinct_outcomes,
+            out.per_depth_states,
+            out.violations.len()
+        );
+        rep.add("states", out.states);
+        rep.add("transitions", out.transitions);
+        rep.add("traces_validated_against_impl", out.transitions);
+        outcomes = outcomes.max(out.distinct_outcomes);
+        if let Some(cap) = &out.cap_hit {
+            rep.cap_hit(cap);
+        }
+        for v in &out.violations {
+            rep.finding(Finding {
+                clause: v.violation.clause.clone(),
+                signature: v.violation.signature.clone(),
+                detail: format!("{} | history {:?}", v.violation.detail, v.history.iter().map(|e| ev_json(e).render()).collect::<Vec<_>>()),
+                case: J::obj().with("filter", J::s(filter)).with("history", J::arr(v.history.iter().map(ev_json))),
+            });
+        }
+        for h in out.sample_histories.iter().take(2) {
+            rep.sample(J::obj().with("filter", J::s(filter)).with("history", J::arr(h.iter().map(ev_json))));
+        }
+    }
+    rep.add("distinct_outcomes", outcomes);
+    rep.assume("the select loop of BlobSubmitter::run is mirrored by the harness (deliver only while has_capacity(); after a take the pushed-back block is re-added); its helpers and NextSubmission are the real ones");
+    rep.finish();
+}
